@@ -57,6 +57,21 @@ impl TryFrom<CompressionWithLevel> for Compressor {
     type Error = Error;
 
     fn try_from(value: CompressionWithLevel) -> Result<Self, Self::Error> {
+        // the encoders panic on levels outside their range; report them as errors instead
+        let level_in_range = match value {
+            CompressionWithLevel::None => true,
+            CompressionWithLevel::Gzip(level) => level <= 9,
+            CompressionWithLevel::Zstd(level) => (-131072..=22).contains(&level),
+            CompressionWithLevel::Xz(level) => level <= 9,
+            CompressionWithLevel::Bzip2(level) => (1..=9).contains(&level),
+        };
+        if !level_in_range {
+            return Err(io::Error::new(
+                io::ErrorKind::InvalidInput,
+                format!("compression level out of range: {}", value),
+            )
+            .into());
+        }
         match value {
             CompressionWithLevel::None => Ok(Compressor::None(Vec::new())),
             #[cfg(feature = "gzip-compression")]
